@@ -133,7 +133,7 @@ CHECKS["C18"] = dict(
           "judged where the face centres are angularly ordered like the face ring; exact table = Float model; dual node = face "
           "centre; UxDataArray.get_dual dims/values/grid; interpreted vs JIT; chains get_dual->get_dual->get_dual on irregular partial and closed "
           "meshes, each grid judged against its own parent (the parent's node_face checked against C03's Lean transpose); source-supplied "
-          "node_face_connectivity with padding anywhere."),
+          "node_face_connectivity with padding anywhere. order_scale_invariant (the repaired key depends only on directions: any positive scaling of the central node and of each centre - Earth radius in km/m, mixed radii - leaves every key, hence the ring, unchanged; asis_unit_normal_helper_wrong: a projection v-(v.c)c without the division by |c|^2 misorders the witness at radius 2). Coordinate form randomised per case (lon/lat only, Cartesian at unit radius / a radius in 1e-3..1e7 incl. 6371.229 and 6371229 / mixed radii, face centres unsupplied / lon-lat / Cartesian at their own radius, with/without normalize_cartesian_coordinates()); the ring and counter-clockwise oracle works on directions."),
     note=_TB + "Modelled, not verified: that face centres around a node are angularly ordered like the face ring (mesh geometry), IEEE "
          "rounding / libm arccos, numba compilation, from_topology/xarray storage, face centres themselves (C04). UxDataset.get_dual "
          "cannot run under the installed xarray.",
@@ -305,13 +305,13 @@ CHECKS["C07"] = dict(
           "multiset) and exodus_rt_single_block (the encoder as it stands, with the reader as it stands, returns the table exactly), "
           "scrip_rt / scrip_rt_uniform (corner positions in order; np.unique round trip; trailing repeats read as padding). Each defect of the "
           "snapshot is a switch of Cfg with a decide-proved as-is counterexample (six repaired by fix commits). Tie: generated histories over "
-          "1-3 grids (lon/lat-only and Cartesian-only sources, sizes 3..10, partial/global) run on the real code; every export is judged by "
+          "1-3 grids (lon/lat-only and Cartesian-only sources, sizes 3..10, partial/global, or opened from every readable sample file under test/meshfiles) run on the real code, every export issued through Grid.to_xarray(fmt), Grid.to_xarray() or the deprecated Grid.encode_as(FMT), drawn at random and mapped to ONE model operation (theorem entry_point_irrelevant: the export is a function of (grid, format) only; a difference between the dispatchers is a correspondence mismatch; encode_history_free is stated on `evolve`, the grid as the operations on it alone have left it, the SCRIP export's side variables added only when absent); every export is judged by "
           "the Lean predicates, re-opened with ux.open_grid directly and after to_netcdf to a scratch file and compared face-for-face by "
           "Lean's RoundTripOK, and the whole history is compared with the Lean model's run; every reported failing history is re-confirmed "
           "in a fresh interpreter. Grids with unused nodes / an isolated first face are generated and EVERY carried connectivity table of the "
           "re-opened grid is compared entry by entry (Lean C07.tables); the reader model standardises by the start_index attribute "
           "(standardize_zero: an explicit 0 shifts nothing; falsy_start_index_shifts is the counterexample for a reader that treats 0 as absent). Cross-model agreement with C01's Model/Readers: ugrid_readers_agree / exodus_readers_agree / scrip_readers_agree (C07's reader side and C01's decoders give the same table/faces/nodes for EVERY input, no hypotheses), export_is_c01_dialect, and the three round trips re-stated through C01's decoders (ugrid_rt_via_c01, exodus_rt_perm_via_c01, exodus_single_block_via_c01, scrip_rt_via_c01)."),
-    note=_TB + "Modelled, not verified: netCDF4/xarray serialisation, Dataset.rename/copy, NumPy indexing, float conversions "
+    note=_TB + "Modelled, not verified: netCDF4/xarray serialisation (xarray's .encoding is not modelled; writability of exports of file-sourced grids is decided by the to_netcdf -> open_grid leg on the sample files), Dataset.rename/copy, NumPy indexing, float conversions "
          "(lon/lat<->xyz are parameters with a stated inverse hypothesis); positions are compared through the nearest original node within 1e-7. "
          "Round trips are stated for the readers named in the theorems (all-blocks Exodus reader; SCRIP reader reading trailing repeats as "
          "padding). Known finding: Exodus element types exist only for faces of 2..8 corners (a 9-gon raises KeyError).",
@@ -375,7 +375,7 @@ CHECKS["C10"] = dict(
           "<3 faces) = recorded known findings; isel with a positional indexers dict was a genuine defect (fix 5ae294e3). Tie: differential run "
           "(directed single-step program per method variant and centring + random programs depth <= 6, ~1.1k judged steps quick / ~39k "
           "thorough, on 3 grids, 5 dtypes, coords), model vs implementation on (type, grid identity/store, dims) after every prefix; "
-          "values/dtype/dims vs the same program on a plain xarray.DataArray."),
+          "values/dtype/dims vs the same program on a plain xarray.DataArray. UxdaAlgebra.UxCall is the table of every public uxarray call returning a UxDataArray with its kind-selecting keywords; uxcall_preserves_inv / uxcall_then_program_inv (each call, and the call followed by any in-scope program, keeps Inv), remap_result_dim / topo_result_dim (the element dimension is named after the selected kind and has the attached grid's count), counterexample mislabelled_remap_violates_spec. A constructors stream exercises every table entry x every keyword value from every source kind onto a different grid (all grids n_node != n_edge != n_face), each followed by a random xarray program, judged by the Lean step spec after every prefix."),
     note=_TB + "Observed, not proved: which constructor path each public xarray method takes (table measured each run by wrapping "
          "_replace/_copy/_construct_direct/__init__ in-process and written to the evidence), value equality with plain xarray (NumPy equality), "
          "Grid.__eq__, store sharing via np.shares_memory, the element counts of grids built by Grid.isel/get_dual (enter as operation "
@@ -383,7 +383,7 @@ CHECKS["C10"] = dict(
          "uxarray's own ops are generated only where the model defines them (one grid dimension, last; no coordinate along it; not on "
          "for integrate/gradient/difference/aggregation/remap/get_dual) - raises outside that domain are counted, not judged. Grid-dimension isel / "
          "subset are generated in ANY layout and on sub-grids too (2-3 selections in a row with arbitrary ops between), judged against plain "
-         "xarray isel by name at geometrically identified indices; grids of a run are in a reproducible warm/cold state recorded in the replay.",
+         "xarray isel by name at geometrically identified indices; grids of a run are in a reproducible warm/cold state recorded in the replay. The constructor sites of uxarray/{core,remap,subset,cross_sections} are enumerated with ast from the tree under test on every run and compared with the table (harness SITES <-> Lean UxCall); an unlisted site is a correspondence mismatch (exit 1, no-failing-input-found). UxDataset sites are listed as not exercisable under the installed xarray; to_dataset is probed and reported unusable.",
     technique="Lean 4 invariant theorem over an operation algebra with an observed constructor-path table + differential correspondence with Lean-evaluated step spec",
 )
 
